@@ -147,6 +147,15 @@ uint8_t *_ZNSi4readEPcl(uint8_t *is, uint8_t *p, uint64_t n) {
   for (uint64_t i = 0; i < n; i++) { if (s->rpos < s->wpos) p[i] = s->buf[s->rpos++]; else { s->fail = 1; break; } }
   return is;
 }
+uint64_t verif_tellg(uint8_t *is) { struct verif_stream *s = verif_stream_of(is); return s->fail ? ~0ull : s->rpos; }
+uint8_t *_ZNSi5seekgESt4fposI11__mbstate_tE(uint8_t *is, uint64_t off, uint64_t st) {
+  struct verif_stream *s = verif_stream_of(is); if (off <= s->wpos) s->rpos = off; else s->fail = 1; return is; }
+uint8_t *_ZNSi5seekgElSt12_Ios_Seekdir(uint8_t *is, uint64_t off, uint32_t dir) {
+  struct verif_stream *s = verif_stream_of(is);
+  uint64_t base = dir == 0 ? 0 : dir == 1 ? s->rpos : s->wpos;     /* beg, cur, end */
+  uint64_t np = base + off;
+  if (np <= s->wpos) s->rpos = np; else s->fail = 1;
+  return is; }
 uint8_t _ZNKSt9basic_iosIcSt11char_traitsIcEE4goodEv(uint8_t *ios) { return !verif_stream_of(ios)->fail; }
 uint8_t _ZNKSt9basic_iosIcSt11char_traitsIcEE3eofEv(uint8_t *ios) { struct verif_stream *s = verif_stream_of(ios); return s->fail; }
 uint8_t _ZNKSt9basic_iosIcSt11char_traitsIcEE4failEv(uint8_t *ios) { return verif_stream_of(ios)->fail; }
